@@ -324,6 +324,40 @@ def through_from_arrays(ctx, out: Outcome):
                         observed=via, expected=direct, detail="from_arrays does not complete chg/mult as validate_and_fill_chgmult does on Z*real"))
 
 
+def route_cases_through_from_arrays(ctx, out: Outcome, cases):
+    """Send a sample of the *same* generated cases through from_arrays (each electron count z becomes one real atom of
+    atomic number z, each 0 a ghost atom), so that anything the caller does to the specification before or after
+    validate_and_fill_chgmult (from_arrays.py:379-392) shows up as a difference from the direct call."""
+    import qcelemental as qcel
+
+    rng = ctx.rng
+    pool = [c for b, c in cases if b in ("B2", "C", "A2") and not c[5] and all(0 <= z <= 110 for f in c[0] for z in f)]
+    rng.shuffle(pool)
+    for case in pool[: ctx.scale(4000, 30000)]:
+        frags, c, fc, m, fm, _ = case
+        zs = [z if z > 0 else 2 for f in frags for z in f]
+        real = [z > 0 for f in frags for z in f]
+        seps = list(np.cumsum([len(f) for f in frags])[:-1])
+        geom = [[3.0 * i, 0.25 * i, 0.0] for i in range(len(zs))]
+        direct = canon_impl(call_impl(frags, c, fc, m, fm, False))
+        try:
+            with contextlib.redirect_stdout(io.StringIO()):
+                rec = qcel.molparse.from_arrays(
+                    geom=np.array(geom), elez=zs, real=real, fragment_separators=seps, molecular_charge=c,
+                    fragment_charges=list(fc), molecular_multiplicity=m, fragment_multiplicities=list(fm), units="Bohr",
+                )
+            via = canon_impl(("ok", rec))
+        except Exception as e:  # noqa
+            via = "err " + err_class(e)
+        out.evaluations += 1
+        out.count("routed_through_from_arrays")
+        if via != direct:
+            bad = oracle(case, ("ok", rec)) if via.startswith("ok") else ["from_arrays refuses a specification that validate_and_fill_chgmult completes"]
+            out.violations.append(
+                Finding("oracle:from_arrays_route", {"case": enc(case), "route": "from_arrays"}, observed=via, expected=direct,
+                        detail="from_arrays(Z*real) differs from validate_and_fill_chgmult on the same specification" + ("; rules broken: " + "; ".join(bad) if bad else "")))
+
+
 def run(ctx: Ctx) -> Outcome:
     out = Outcome()
     cases = list(gen_cases(ctx))
@@ -334,6 +368,7 @@ def run(ctx: Ctx) -> Outcome:
         check_case(ctx, out, block, case, ml)
     float_typed_stream(ctx, out)
     through_from_arrays(ctx, out)
+    route_cases_through_from_arrays(ctx, out, cases)
     out.exhaustive = False
     out.notes.append("block A1 is exhaustive over its stated scope; blocks A2,B2,C,D sampled from VERIF_SEED")
     return out
@@ -349,4 +384,7 @@ def replay(ctx: Ctx, case) -> Outcome:
     cs = ([[int(x) for x in f.split(",") if x] for f in fr.split(";")], o(c), [o(x) for x in fc.split()], o(m), [o(x) for x in fm.split()], z.strip() == "1")
     ml = ctx.run_model(DRIVER, [enc(cs)])[0] if ctx.model_available else None
     check_case(ctx, out, "replay", cs, ml)
+    if isinstance(case, dict) and case.get("route") == "from_arrays":
+        ctx.rng.shuffle = lambda x: None  # keep the single case
+        route_cases_through_from_arrays(ctx, out, [("B2", cs)])
     return out
